@@ -8,10 +8,17 @@ import (
 	"verifharness/sim"
 )
 
+// udpBoundaryMTUs: the ends of the supported MTU range and their neighbours, used by the first cases of
+// every run (quick and thorough).
+var udpBoundaryMTUs = []int{1280, 1281, 1499, 1500, 1400}
+
 // C02 — UDP transport: reliable, ordered, exactly-once stream over a faulty network.
 func init() {
 	core.Register("C02", &core.Scenario{
 		Run: func(c *core.Ctx) {
+			if !stageOn("main") {
+				return
+			}
 			c.Res.Rule = "each case: MTU from {1280,1281,1400,1499,1500} or random in [1280,1500], random valid traffic pattern per side (incl. low entropy), multiplex 0..3, 1..3 concurrent sessions, boundary and random write sizes in both directions, and a fault plan: clean / positional drops / duplicates / delays (reordering) / bursts / random loss up to 20% + duplication + reordering; thorough adds loss of the open request / open response / first k datagrams. Real protocol.Mux endpoints over the in-memory datagram network. Oracle: bytes read = bytes written in both directions and the transfer completes (a stall must reproduce in 2 of 3 runs). Every datagram is decoded by the reference codec and each (session, direction) history is replayed through the Lean acceptor Arq.acceptAll. Distinct = distinct case JSON."
 			c.Correspondence("observed UDP histories (writes, emissions, deliveries, acks) accepted by Mieru.Arq.acceptAll (trace inclusion); every datagram decodes with the reference codec")
 			n := c.N(36, 480)
@@ -22,6 +29,9 @@ func init() {
 					budget = 2 << 20
 				}
 				cases[i] = genUDPCase(c.Rand, budget, c.Thorough() && i%4 == 0)
+				if i < len(udpBoundaryMTUs) {
+					cases[i].MTU = udpBoundaryMTUs[i] // every boundary MTU on every run, before the random stream
+				}
 			}
 			// special cases (also in the quick tier; each costs a few seconds of protocol timers)
 			many := make([]int, 5000)
@@ -86,12 +96,18 @@ func init() {
 	})
 	core.Register("C13", &core.Scenario{
 		Run: func(c *core.Ctx) {
+			if !stageOn("main") {
+				return
+			}
 			c.Res.Rule = "the fault schedules of C02 (same generator, different seeds): every datagram on the simulated network is decoded; each cumulative ack is compared with the exact set of that session's datagrams the network had handed to its emitter before the emission; all transmissions of one (session, direction, seq) are compared (type, fragment, payload); first transmissions must be numbered 0,1,2,…. Distinct = distinct case JSON."
 			c.Correspondence("wire monitor over UDP runs + Arq.acceptAll on every (session,direction) history")
 			n := c.N(36, 480)
 			cases := make([]udpCase, n)
 			for i := range cases {
 				cases[i] = genUDPCase(c.Rand, 60000, c.Thorough() && i%4 == 0)
+				if i < len(udpBoundaryMTUs) {
+					cases[i].MTU = udpBoundaryMTUs[i]
+				}
 				// more loss and reordering than C02's mix: retransmissions and out-of-order delivery are the point
 				if i%2 == 0 {
 					cases[i].Faults.Loss, cases[i].Faults.Reorder, cases[i].Faults.Dup = 0.08, 0.15, 0.05
